@@ -254,12 +254,17 @@ def run(eng, ctx):
         d2 = [o.key for o in occs if o.kind == "field" and o.depth == 2]
         cvals = [v[0] for v in coeffs.values()] if isinstance(coeffs, dict) else []
         ctx.check(cvals == d2, "C18.D5", "rtcmtypes_core.COEFFS", "coefficient fields", expected=str(d2), found=str(cvals), file=eng.repo.relpath(core), line=0)
+        from ..engine import oracle as _oracle
+
+        vt = _oracle("vtec.json")
+        kinds = {v[1]: v[0] for v in coeffs.values() if isinstance(v, tuple) and len(v) == 2} if isinstance(coeffs, dict) else {}
+        ctx.check(kinds == vt["coefficients"], "C18.D5", "rtcmtypes_core.COEFFS", "coefficient kind -> field", expected=str(vt["coefficients"]), found=str(kinds), file=eng.repo.relpath(core), line=0)
         # height field: a depth-1 field of the layer group, probed with one suffix of (layer index + 1)
         dec = SH.decoder_suffix_format(eng)
         d1 = [o.key for o in occs if o.kind == "field" and o.depth == 1]
         for e in sh.effects:
-            if e.kind == "call" and e.term[2] == ("builtin", "getattr") and len(e.term[3]) >= 2 and e.term[3][1][0] == "fstr":
-                parts = e.term[3][1][1]
+            if e.kind == "call" and e.term[2] == ("builtin", "getattr") and len(e.term[3]) >= 2 and (e.term[3][1][0] == "fstr" or (e.term[3][1][0] == "bin" and e.term[3][1][1] == "+")):
+                parts = strparts(e.term[3][1])  # concatenations and nested f-strings flattened
                 consts = "".join(p[1] for p in parts if is_const(p))
                 fmts = [p for p in parts if p[0] == "fmt"]
                 idxf = [p for p in fmts if p[2] != ""]
@@ -502,6 +507,11 @@ def _structure_harmonics(eng, ctx, ph, sh, mp, facts, coeffs):
 
         fmts_ = [p_ for p_ in strparts(nm) if p_[0] == "fmt"] if (nm[0] == "fstr" or (nm[0] == "bin" and nm[1] == "+")) else []
         ctx.check(len(fmts_) == 1 and fmts_[0][1] == ("bin", "+", lyr, ("const", 1)), "C18.D9", ph.qualname, "layer height attribute name", expected="<height field>_<layer + 1>", found=show(nm)[:70], **eng.loc(ph, lo.get("node", ph.node)))
+        from ..engine import oracle as _oracle
+
+        hf = _oracle("vtec.json")["height"]
+        lead = [p_ for p_ in (strparts(nm) if (nm[0] == "fstr" or (nm[0] == "bin" and nm[1] == "+")) else ())][:1]
+        ctx.check(bool(lead) and is_const(lead[0]) and isinstance(lead[0][1], str) and lead[0][1].rstrip("_") == hf, "C18.D9", ph.qualname, "layer height field", expected=f"{hf} (height of the ionospheric layer)", found=show(nm)[:70], **eng.loc(ph, lo.get("node", ph.node)))
     ctx.check(len(hts) == 1 and len(d1) == 1, "C18.D9", ph.qualname, "layer height entry", expected="'Layer Height' -> getattr(msg, <height field of this layer>) once per layer", found="; ".join(show(t)[:50] for t in hts) or "no 'Layer Height' entry", **eng.loc(ph, lo.get("node", ph.node)))
     # coefficient lists and probes
     inner = [lid for lid, info in sh.loop_info.items() if lid != Lo and info.get("iter") is not None and info["iter"][0] in ("const", "gval", "call") and "values" in show(info["iter"]) or (lid != Lo and is_const(info.get("iter", ("?",))))]
@@ -526,8 +536,8 @@ def _structure_harmonics(eng, ctx, ph, sh, mp, facts, coeffs):
             ctx.check(in_layer(e.target[1], pre_of), "C18.D9", ph.qualname, "coefficient list stored in this layer's entry", expected="result[layer][kind] = [] (or through the layer's dict)", found=show(e.target[1])[:70], **eng.loc(ph, e.node))
         # NAME of the probed attribute: <field of this kind>_<layer + 1>_<k>, read from the message
         nm = eg.term[3][1]
-        parts = nm[1] if nm[0] == "fstr" else ()
-        fm = [p_ for p_ in parts if p_[0] == "fmt"]
+        parts = strparts(nm) if (nm[0] == "fstr" or (nm[0] == "bin" and nm[1] == "+")) else ()
+        fm = [p_ if p_[0] == "fmt" else ("fmt", p_, "") for p_ in parts if not is_const(p_)]  # a concatenated string term is a hole without a spec
         okn = eg.term[3][0] == mp and len(fm) == 3 and fm[0][1] == ("proj", cel, 0) and fm[1][1] == ("bin", "+", lyr, ("const", 1))
         ctx.check(okn, "C18.D9", ph.qualname, "probed attribute name", expected="getattr(msg, f'{field of this kind}_{layer + 1:02d}_{k:02d}')", found=show(eg.term)[:100], **eng.loc(ph, eg.node))
         ctx.check(len(lsts) == 1, "C18.D9", ph.qualname, "coefficient list", expected="layer[<coefficient kind>] = [] once per kind", found=f"{len(lsts)} store(s) of a new list under the kind's name", **eng.loc(ph, eg.node))
